@@ -44,6 +44,7 @@ type Message struct {
 	hbuf   []byte
 	bsize  int
 	refcnt int32
+	vs     verifMsgState
 }
 
 type msgCacheInfo struct {
@@ -110,7 +111,9 @@ var messageCache = []msgCacheInfo{
 // rather substantial benefits for performance.
 func (m *Message) Free() {
 	if m != nil {
+		verifPreFree(m)
 		if atomic.AddInt32(&m.refcnt, -1) == 0 {
+			verifRelease(m)
 			for i := range messageCache {
 				if m.bsize == messageCache[i].maxbody {
 					messageCache[i].pool.Put(m)
@@ -126,6 +129,7 @@ func (m *Message) Free() {
 // If a read-only copy needs to be made "unique", callers can do so by
 // using the Uniq function.
 func (m *Message) Clone() {
+	verifUse(m, "Clone")
 	atomic.AddInt32(&m.refcnt, 1)
 }
 
@@ -141,6 +145,7 @@ func (m *Message) Clone() {
 // Note that transports always should call this on their transmit path
 // if they are going to modify the message.  (Most do not.)
 func (m *Message) MakeUnique() *Message {
+	verifUse(m, "MakeUnique")
 	if atomic.LoadInt32(&m.refcnt) == 1 {
 		return m
 	}
@@ -154,6 +159,7 @@ func (m *Message) MakeUnique() *Message {
 // Dup creates a "duplicate" message.  The message is made as a
 // deep copy, so the resulting message is safe to modify.
 func (m *Message) Dup() *Message {
+	verifUse(m, "Dup")
 	dup := NewMessage(len(m.Body))
 	dup.Body = append(dup.Body, m.Body...)
 	dup.Header = append(dup.Header, m.Header...)
@@ -178,5 +184,6 @@ func NewMessage(sz int) *Message {
 	m.Body = m.bbuf
 	m.Header = m.hbuf
 	atomic.StoreInt32(&m.refcnt, 1)
+	verifNew(m, sz)
 	return m
 }
